@@ -44,7 +44,7 @@ class HelloFactory(sk.protocol.Factory):
 REPLY_OK = b"\x05\x00\x00\x01\x01\x02\x03\x04\x00\x50"
 
 
-def vector(req, kind, host, port, sel="ok"):
+def vector(req, kind, host, port, sel="ok", tls=False):
     """run one request through the public entry point and record what was written: before the server's
     method selection (first), after a partial selection message (mid), after the whole of it (second)"""
     ep = sk.FakeProxyEndpoint()
@@ -54,7 +54,7 @@ def vector(req, kind, host, port, sel="ok"):
     err = False
     try:
         if req == "CONNECT":
-            d = socks.TorSocksEndpoint(ep, host, port).connect(HelloFactory() if sel == "coalesced" else sk.AppFactory())
+            d = socks.TorSocksEndpoint(ep, host, port, tls=tls).connect(HelloFactory() if sel == "coalesced" else sk.AppFactory())
         elif req == "RESOLVE":
             d = socks.resolve(ep, host)
         else:
@@ -98,4 +98,4 @@ def vector(req, kind, host, port, sel="ok"):
     if kind in ("v4", "v6"):
         addr = ipaddress.ip_address(host).packed
     return dict(req=req, kind=kind, name=list(name), addr=list(addr), port=port if req == "CONNECT" else 0,
-                first=list(first), mid=list(mid), second=list(second), err=err, host=host, sel=sel)
+                first=list(first), mid=list(mid), second=list(second), err=err, host=host, sel=sel, tls=bool(tls))
